@@ -395,6 +395,14 @@ def run_schemes(c):
         for a, b in ((ids[1], ids[2]), (ids[0], ids[3]), (ids[4], ids[1])):
             for klen in (16, 48) if not q else (rng.choice([16, 32, 48]),):
                 put({"op": "exchange", "ks": i2b(ke), "ident": a, "idb": b, "klen": klen, "seed": rng.randrange(1 << 30)}, kind="exchange", ke=ke, a=a, b=b, klen=klen)
+    # --- encapsulation and exchange with a one-octet key, many times: about one run in 256 has to retry with a second nonce (an all-zero key is not output)
+    # (windows around entropy streams known to need the second nonce -- found by the first 1600-trial run -- keep the quick tier short and deterministic;
+    # a fresh sample of streams is added on top)
+    for op, known in (("kemloop", ((7000, 181), (7002, 153))), ("exchloop", ((7001, 4), (7003, 237)))):
+        for sd, at in known:
+            put({"op": op, "ks": i2b(masters[0]), "ident": ids[1], "idb": ids[2], "klen": 1, "trials": 5, "start": max(0, at - 2), "seed": sd}, kind=op, part="known-%d-%d" % (sd, at))
+        for part in range(1 if q else 16):
+            put({"op": op, "ks": i2b(masters[0]), "ident": ids[1], "idb": ids[2], "klen": 1, "trials": 300, "seed": 8000 + part + c.seed * 100}, kind=op, part=part)
     # --- user key extraction at and next to the one master secret per identity for which it must fail: ks = -H1(ID||hid) (t1 = 0), and ks = that +- 1
     for op, hid in (("sign_extract", R.HID_SIGN), ("enc_extract", R.HID_ENC), ("exch_extract", R.HID_EXCH)):
         for ident in ids[:2]:
@@ -419,6 +427,10 @@ def run_schemes(c):
             c.violation(key[:180] + ":crash", "driver died / sanitizer report: %s" % san, {"line": {k: str(v)[:200] for k, v in line.items()}})
             continue
         ev = dict(evs[0])
+        if kind in ("kemloop", "exchloop"):
+            ev.setdefault("xrc", -99); ev.setdefault("rcbad", -99); ev.setdefault("agree", -1); ev.setdefault("trials", 0)
+            execs.append((key, [ev]))
+            continue
         if kind.endswith("_extract"):
             ref = "" if f["t1zero"] else (R.g1_to_bytes(R.sign_key_extract(f["ks"], f["ident"])).hex() if kind == "sign_extract" else R.g2_to_bytes(R.enc_key_extract(f["ks"], f["ident"], f["hid"])).hex())
             ev.update(t1zero=f["t1zero"], refkey=ref, key=ev.get("ds", ev.get("de", ""))); ev.setdefault("xrc", -99)
